@@ -157,6 +157,16 @@ SMALL = {
         },
         "marks": {"em": {}},
     },
+    # several coexisting non-inclusive marks (marks at a position, C09)
+    "s1m": {
+        "nodes": {
+            "doc": {"content": "block+"},
+            "p": {"content": "inline*", "group": "block"},
+            "text": {"group": "inline"},
+            "br": {"inline": True, "group": "inline"},
+        },
+        "marks": {"n1": {"inclusive": False}, "em": {}, "n2": {"inclusive": False}, "n3": {"inclusive": False, "excludes": ""}},
+    },
     # S3: isolating containers and table-like structure
     "s3": {
         "nodes": {
